@@ -1,7 +1,8 @@
 #!/usr/bin/env python
 '''OpenMP execution model used by realise/C09.py. Written by an independent
 sub-agent from the text of property C09 only (it is seeded/C09a/demo.py,
-unchanged apart from this paragraph and the QUIET switch).
+unchanged apart from this paragraph, the QUIET switch and the value of a
+DO variable after its loop, marked '(added in /verif)').
 
 Demo for property C09 (OpenMP-parallelised loops compute the serial result
 on any schedule).
@@ -128,7 +129,8 @@ def evaluate(node, env):
             return val
         return not val
     if isinstance(node, IntrinsicCall):
-        args = [evaluate(arg, env) for arg in node.children]
+        # (added in /verif) .arguments: the first child is the routine name
+        args = [evaluate(arg, env) for arg in node.arguments]
         if any(arg is UNDEF for arg in args):
             return UNDEF
         name = node.routine.name.upper()
@@ -189,11 +191,17 @@ def run(node, thread):
             for child in body.children:
                 yield from run(child, thread)
     elif isinstance(node, Loop):
-        for val in loop_values(node, env):
+        vals = loop_values(node, env)
+        for val in vals:
             env.put(node.variable.name, val)
             yield "step"
             for child in node.loop_body.children:
                 yield from run(child, thread)
+        # (added in /verif) Fortran 2008 8.1.6.6.4: after completion the DO
+        # variable holds start + trip_count * step
+        env.put(node.variable.name,
+                evaluate(node.start_expr, env) if not vals
+                else vals[-1] + evaluate(node.step_expr, env))
     elif isinstance(node, OMPDoDirective):   # includes "parallel do"
         loop = node.dir_body.children[0]
         if thread.plan is None:      # serial execution: ignore directive
